@@ -341,6 +341,9 @@ type RunOpts struct {
 	Memoize      bool
 	Debug        bool
 	Statistics   bool
+	// StatsPreload: the Stats object handed to Statistics already holds this
+	// ExprCnt (an object re-used from earlier parses).
+	StatsPreload uint64
 	MaxExpr      uint64
 	NoRecover    bool
 	AllowInvalid bool
